@@ -56,6 +56,8 @@ def d_truncate(g, tier):
     ops = []
     for i in range(1 if tier == "quick" else 8):
         ops += gen.truncate_session(g)
+    for i in range(1 if tier == "quick" else 6):
+        ops += gen.bigcount_session(g)
     return ops
 
 
